@@ -1079,6 +1079,9 @@ where
 }
 
 /// Return a new message without the DNSSEC type RRSIG, NSEC, and NSEC3.
+///
+/// DS records are removed from the authority and additional sections as
+/// well: they are only present there because DO was set in the request.
 fn remove_dnssec(
     msg: &Message<Bytes>,
     ad: bool,
@@ -1120,7 +1123,9 @@ fn remove_dnssec(
         let rr = rr?
             .into_record::<AllRecordData<_, ParsedName<_>>>()?
             .expect("record expected");
-        if is_dnssec(rr.rtype()) {
+        if is_dnssec(rr.rtype()) || rr.rtype() == Rtype::DS {
+            // A DS record in the authority section is part of a signed
+            // referral (RFC 4035, Section 3.1.4.1). It was not requested.
             continue;
         }
         target.push(rr).expect("push error");
@@ -1133,7 +1138,7 @@ fn remove_dnssec(
         let rr = rr
             .into_record::<AllRecordData<_, ParsedName<_>>>()?
             .expect("record expected");
-        if is_dnssec(rr.rtype()) {
+        if is_dnssec(rr.rtype()) || rr.rtype() == Rtype::DS {
             continue;
         }
         target.push(rr).expect("push error");
